@@ -45,7 +45,9 @@ def run_shard(pid: str, tier: str, seed: int, shard: tuple[int, int], out: str) 
     module = load_module(pid)
     try:
         module.run(ctx)
-    except Exception:  # noqa: BLE001  harness failure: never a VIOLATION
+    except (KeyboardInterrupt, SystemExit):
+        raise
+    except BaseException:  # noqa: BLE001  harness failure: never a VIOLATION
         ctx.inconclusive.append("harness error: " + traceback.format_exc()[-1500:])
     write_json(Path(out), ctx.dump_partial())
     return 0
@@ -92,7 +94,9 @@ def main(argv: list[str] | None = None) -> int:
     if shards == 1:
         try:
             module.run(ctx)
-        except Exception:  # noqa: BLE001
+        except (KeyboardInterrupt, SystemExit):
+            raise
+        except BaseException:  # noqa: BLE001
             ctx.inconclusive.append("harness error: " + traceback.format_exc()[-1500:])
     else:
         run_sharded(ctx, shards, args.tier)
